@@ -258,7 +258,7 @@ func writeEvidence(id, tier string, seed int, cfg *CheckCfg, ld *Loaded, results
 		"queries": map[string]any{
 			"total": atomic.LoadInt64(&gStats.Queries), "sat": gStats.Sat, "unsat": gStats.Unsat, "unknown": gStats.Unknown,
 			"errors": gStats.Errors, "fallback_runs": gStats.Fallback, "fallback_backends": gBackendUse.m,
-			"primary": "z3 4.8.12 -in (incremental, push/pop)", "fallback": "z3-new 5.1.0, cvc5 1.0 (QF_BV), cvc5 --solve-bv-as-int=sum",
+			"primary": "z3-new 5.1.0 -in (one self-contained push/pop query per decision, sliced to the variables involved)", "fallback": "z3 4.8.12, cvc5 1.0 (QF_BV), cvc5 --solve-bv-as-int=sum",
 		},
 		"solver_s": float64(gStats.Nanos) / 1e9,
 		"engine":   "symgo: symbolic execution of go/ssa (x/tools v0.50.0) rebuilt from /repo on this run",
